@@ -147,7 +147,10 @@ def run_ints(ctx, spec):
             ctx.distinct(size, k, i)
   finally:
     mon.restore()
-  ctx.sample({'batch_size': size, 'values': vals[:6], 'extra': extra})
+  try:
+    ctx.sample({'batch_size': size, 'values': vals[:6], 'extra': extra})
+  except NameError:
+    pass
 
 
 def run_keys(ctx, spec):
@@ -247,7 +250,10 @@ def run_keys(ctx, spec):
       if not ns and ret is not False:
         ctx.violation('checkgcdn1-return', 'empty batch returned %r' % (ret,),
                       None)
-  ctx.sample({'batch_size': len(ns), 'moduli': ns[:3]})
+  try:
+    ctx.sample({'batch_size': len(ns), 'moduli': ns[:3]})
+  except NameError:
+    pass
 
 
 def run(ctx, spec):
